@@ -30,3 +30,17 @@ pub fn sha256_process_blocks(state: &mut [u32; 8], blocks: &[u8]) {
 pub fn fmt_format_empty(_args: core::fmt::Arguments<'_>) -> String {
     String::new()
 }
+
+/// Replacement for `Vec::push` in harnesses over decoders that reserve the exact element count up
+/// front (`Vec::with_capacity(count)` followed by `count` pushes). It ASSERTS (does not assume) that
+/// the push stays within the reserved capacity and then writes in place. This removes the
+/// reallocation path (realloc of a symbolic-size heap object) from the formula without hiding any
+/// behaviour: if a push could exceed the capacity the harness fails.
+pub fn vec_push_within_capacity<T, A: std::alloc::Allocator>(v: &mut Vec<T, A>, value: T) {
+    let len = v.len();
+    assert!(len < v.capacity(), "stubbed Vec::push: push within the capacity reserved by the decoder");
+    unsafe {
+        core::ptr::write(v.as_mut_ptr().add(len), value);
+        v.set_len(len + 1);
+    }
+}
